@@ -104,7 +104,7 @@ def t2_failing(pid):
     except Exception:
         pass
     cq = os.path.join(VERIF, 'coq')
-    files = {'C02': ['CodeValidators', 'CodeSegPred'], 'C03': ['CodeValidators'], 'C05': ['CodeSegPred'], 'C08': ['CodeSegFlag']}[pid]
+    files = {'C02': ['CodeValidators', 'CodeSegPred'], 'C03': ['CodeValidators', 'CodeViews'], 'C05': ['CodeSegPred'], 'C08': ['CodeSegFlag']}[pid]
     r = sh('timeout 1800 make -k -j4 ' + ' '.join('theories/%s.vo' % f for f in files), cwd=cq, timeout=1900)
     o = r.stdout + r.stderr
     m = re.search(r'File "\./theories/(Code\w+)\.v", line (\d+)', o)
